@@ -71,6 +71,15 @@ pub fn run(ctx: &Ctx) -> Result<()> {
 			let z = 13 + (i as u8 % 2);
 			for b in 0..(34 + rng.below(12)) as u32 { let (bx, by) = (b % 7, b / 7); m.insert((z, bx * 256 + rng.below(256) as u32, by * 256 + rng.below(256) as u32), (0..(6 + rng.below(20))).map(|_| rng.next() as u8).collect::<Vec<u8>>()); }
 			m
+		} else if i % 6 == 4 {
+			// several zoom levels (a writer may reach a presentable state after each of them), one of them with two blocks
+			let mut m = std::collections::HashMap::new();
+			m.insert((0u8, 0u32, 0u32), rng.bytes(9));
+			for _ in 0..3 { m.insert((2, rng.below(4) as u32, rng.below(4) as u32), { let n = 5 + rng.below(20) as usize; rng.bytes(n) }); }
+			for _ in 0..3 { m.insert((5, rng.below(32) as u32, rng.below(32) as u32), { let n = 5 + rng.below(20) as usize; rng.bytes(n) }); }
+			m.insert((9, 255, 17), rng.bytes(12)); m.insert((9, 256, 17), rng.bytes(12));
+			if rng.chance(1, 2) { m.insert((12, rng.below(4096) as u32, rng.below(4096) as u32), rng.bytes(7)); }
+			m
 		} else { gen_tiles_shape(&mut rng, false, [1u64, 3, 0, 5, 4, 6][i % 6]) };
 		// keep files small: short payloads, few tiles
 		let keys: Vec<_> = tiles.keys().cloned().collect();
